@@ -68,6 +68,7 @@ def shape(kind: int, d):
     if kind == 5: return {}
     if kind == 6: return [[d]]
     if kind == 7: return {1: d}
+    if kind == 9: return ()
     return (d, d)
 
 # ---- documented rules (docs/loading-and-dumping/specific-types-behavior.rst), written independently of the implementation
@@ -222,7 +223,7 @@ def l1_loader_module(prop: str, tier: str) -> Module:
                          note="values cross a C boundary and are realised: solver-driven enumeration of the selector space")
                     m.ob(f"l1_{name}_{tagname}_shapes", "tag: int, c0: int, kind: int",
                          BODY[prop].format(name=name, strict=strict, data=f"shape(kind, sel_atom(tag, 1, c0, 0, 0, {ralpha!r}))"),
-                         pre=["0 <= tag <= 5", "0 <= c0 <= 1", "1 <= kind <= 8"],
+                         pre=["0 <= tag <= 5", "0 <= c0 <= 1", "1 <= kind <= 9"],
                          timeout=tmo, family="L1 scalar loaders: wrong root container kinds (realised)",
-                         bounds="8 container shapes x 6 atom kinds x 2 payloads")
+                         bounds="9 container shapes (incl. the empty tuple) x 6 atom kinds x 2 payloads")
     return m
